@@ -5,6 +5,7 @@ import (
 	"go/token"
 	"go/types"
 	"sort"
+	"strconv"
 	"strings"
 
 	"golang.org/x/tools/go/ssa"
@@ -277,13 +278,93 @@ func ctxBool(enc string, i int) int8 {
 		var idx int
 		var val byte
 		if n, _ := fmt.Sscanf(part, "%d=%c", &idx, &val); n == 2 && idx == i {
-			if val == 'T' {
+			switch val {
+			case 'T':
 				return 2
+			case 'F':
+				return 1
 			}
-			return 1
 		}
 	}
 	return 0
+}
+
+// isTokenChanType: chan struct{} or a named type of it.
+func isTokenChanType(t types.Type) bool {
+	ch, ok := t.Underlying().(*types.Chan)
+	if !ok {
+		return false
+	}
+	st, ok := ch.Elem().Underlying().(*types.Struct)
+	return ok && st.NumFields() == 0
+}
+
+// ctxSync returns the "type.field" of the sync object bound to parameter i in this context ("" when unknown): a
+// WaitGroup or mutex handed to a shared function by address (`go gcTicker(&d.wg, …)`).
+func ctxSync(enc string, i int) string {
+	for _, part := range strings.Split(enc, ",") {
+		k := strings.Index(part, "=@")
+		if k <= 0 {
+			continue
+		}
+		if n, err := strconv.Atoi(part[:k]); err == nil && n == i {
+			return part[k+2:]
+		}
+	}
+	return ""
+}
+
+// chanKey: "type.field" of the token channel v denotes — a load of the field, or a parameter (the receiver of a
+// method of a named channel type) the context binds to one.
+func (fa *funcAn) chanKey(v ssa.Value) string {
+	if k := fa.e.chanField(v); k != "" {
+		return k
+	}
+	if p, ok := an.Origin(v).(*ssa.Parameter); ok && p.Parent() == fa.fn {
+		for i, q := range fa.fn.Params {
+			if q == p {
+				return ctxSync(fa.ctx.params, i)
+			}
+		}
+	}
+	return ""
+}
+
+// tokenOwner: the function a token operation is attributed to: the function that names the token field — for an
+// operation inside a method of a named channel type (g.hold()), the nearest caller that is not such a method.
+func (fa *funcAn) tokenOwner(v ssa.Value) string {
+	e := fa.e
+	if e.chanField(v) != "" {
+		return e.P.FuncName(fa.fn)
+	}
+	for i := len(e.stack) - 1; i >= 0; i-- {
+		f := e.stack[i].fn
+		if f.Signature.Recv() != nil && isTokenChanType(f.Signature.Recv().Type()) {
+			continue
+		}
+		return e.P.FuncName(f)
+	}
+	return e.P.FuncName(fa.fn)
+}
+
+// syncField: the struct field ("type", "field", base object) a sync primitive passed to a call lives in — directly
+// (&x.f) or through a parameter the context binds.
+func (fa *funcAn) syncField(v ssa.Value) (string, string, ssa.Value, bool) {
+	if t, f, b, ok := fa.e.fieldOf(v); ok {
+		return t, f, b, true
+	}
+	if p, ok := an.Origin(v).(*ssa.Parameter); ok && p.Parent() == fa.fn {
+		for i, q := range fa.fn.Params {
+			if q == p {
+				if tf := ctxSync(fa.ctx.params, i); tf != "" {
+					if k := strings.LastIndex(tf, "."); k > 0 {
+						return tf[:k], tf[k+1:], p, true
+					}
+				}
+			}
+		}
+	}
+	return "", "", nil, false
 }
 
 func (fa *funcAn) edge(st lstate, from *ssa.BasicBlock, succ int) (lstate, bool) {
@@ -365,7 +446,7 @@ func (fa *funcAn) edge(st lstate, from *ssa.BasicBlock, succ int) (lstate, bool)
 					if k, ok := an.ConstInt(y); ok && int(k) < len(sel.States) {
 						stt := sel.States[k]
 						if stt.Dir == types.RecvOnly {
-							if f := fa.e.chanField(stt.Chan); f != "" && fa.e.tokenFields[f] {
+							if f := fa.chanKey(stt.Chan); f != "" && fa.e.tokenFields[f] {
 								c := fa.e.class(f, Token)
 								st = fa.acquire(st, c, sel, false)
 							}
@@ -508,14 +589,14 @@ func (fa *funcAn) instr(st lstate, in ssa.Instruction) []lstate {
 		return fa.call(st, x)
 	case *ssa.UnOp:
 		if x.Op == token.ARROW {
-			if f := e.chanField(x.X); f != "" && e.tokenFields[f] {
+			if f := fa.chanKey(x.X); f != "" && e.tokenFields[f] {
 				c := e.class(f, Token)
-				e.TokenOps = append(e.TokenOps, TokenOp{Class: c, Func: e.P.FuncName(fa.fn), Pos: x.Pos(), Blocking: true, Held: st.held})
+				e.TokenOps = append(e.TokenOps, TokenOp{Class: c, Func: fa.tokenOwner(x.X), Pos: x.Pos(), Blocking: true, Held: st.held})
 				st = fa.acquire(st, c, x, false)
 			}
 		}
 	case *ssa.Send:
-		if f := e.chanField(x.Chan); f != "" && e.tokenFields[f] {
+		if f := fa.chanKey(x.Chan); f != "" && e.tokenFields[f] {
 			if u, ok := x.Chan.(*ssa.UnOp); ok {
 				if _, _, base, ok := e.fieldOf(u.X); ok && fa.unpublishedAt(base, x) {
 					return []lstate{st} // initial fill of a token of an unpublished object
@@ -528,7 +609,7 @@ func (fa *funcAn) instr(st lstate, in ssa.Instruction) []lstate {
 			if s.Dir != types.RecvOnly {
 				continue
 			}
-			if f := e.chanField(s.Chan); f != "" && e.tokenFields[f] {
+			if f := fa.chanKey(s.Chan); f != "" && e.tokenFields[f] {
 				cancel := false
 				for _, o := range x.States {
 					if o.Dir == types.RecvOnly {
@@ -537,7 +618,7 @@ func (fa *funcAn) instr(st lstate, in ssa.Instruction) []lstate {
 						}
 					}
 				}
-				e.TokenOps = append(e.TokenOps, TokenOp{Class: e.class(f, Token), Func: e.P.FuncName(fa.fn), Pos: x.Pos(), InSelect: true, Cancelable: cancel, Blocking: x.Blocking, Held: st.held})
+				e.TokenOps = append(e.TokenOps, TokenOp{Class: e.class(f, Token), Func: fa.tokenOwner(s.Chan), Pos: x.Pos(), InSelect: true, Cancelable: cancel, Blocking: x.Blocking, Held: st.held})
 			}
 		}
 	case *ssa.Return:
@@ -642,7 +723,7 @@ func (fa *funcAn) syncOp(call ssa.CallInstruction) (op string, class int, base s
 	if n == nil || n.Obj().Pkg() == nil || n.Obj().Pkg().Path() != "sync" {
 		return "", 0, nil, false
 	}
-	t, f, b, isField := fa.e.fieldOf(call.Common().Args[0])
+	t, f, b, isField := fa.syncField(call.Common().Args[0])
 	if !isField {
 		return "", 0, nil, false
 	}
@@ -737,6 +818,16 @@ func (fa *funcAn) resolveFunc(v ssa.Value, depth int) (*ssa.Function, *ssa.MakeC
 	switch x := an.Origin(v).(type) {
 	case *ssa.Function:
 		return x, nil
+	case *ssa.Parameter:
+		if x.Parent() == fa.fn {
+			for i, q := range fa.fn.Params {
+				if q == x {
+					if b, ok := fa.e.fnArgs[ctxSync(fa.ctx.params, i)]; ok {
+						return b.fn, b.mc
+					}
+				}
+			}
+		}
 	case *ssa.MakeClosure:
 		if fn, ok := x.Fn.(*ssa.Function); ok {
 			return fn, x
@@ -854,9 +945,36 @@ func (fa *funcAn) targets(call ssa.CallInstruction) []target {
 		return out
 	}
 	for _, fn := range e.P.Callees(call) {
+		// a function value the call graph resolves to methods of several store families (a method value handed to a
+		// shared function): in the context of one family only that family's method is meant
+		if fa.ctx.fam >= 0 {
+			if f := e.familyOfTarget(fn); f >= 0 && f != fa.ctx.fam {
+				continue
+			}
+		}
 		add(fn, cc.Args, nil, false)
 	}
 	return out
+}
+
+// familyOfTarget: the store family a call target belongs to (through the bound-method wrapper of a method value), -1
+// when it belongs to none.
+func (e *Engine) familyOfTarget(fn *ssa.Function) int {
+	if f := e.R.FamilyOfFunc(fn); f != nil {
+		return e.famIndex(f)
+	}
+	if strings.HasPrefix(fn.Synthetic, "bound method wrapper") || strings.HasPrefix(fn.Synthetic, "wrapper for") || strings.HasPrefix(fn.Synthetic, "thunk for") {
+		res := -1
+		an.Calls(fn, func(c ssa.CallInstruction) {
+			if sc := c.Common().StaticCallee(); sc != nil {
+				if f := e.R.FamilyOfFunc(sc); f != nil {
+					res = e.famIndex(f)
+				}
+			}
+		})
+		return res
+	}
+	return -1
 }
 
 // callbackMethods: an external function receiving a module value through an interface parameter may
@@ -937,6 +1055,32 @@ func (fa *funcAn) calleeCtx(st lstate, call ssa.CallInstruction, t target) ctxKe
 					ps = append(ps, fmt.Sprintf("%d=F", i))
 				case 2:
 					ps = append(ps, fmt.Sprintf("%d=T", i))
+				}
+			}
+			// a function value handed over (mr.withLock(func() {…}), gcTicker(…, d.gc)): the callee's call of the
+			// parameter means this function, not every function any caller passes
+			if _, isSig := t.fn.Params[i].Type().Underlying().(*types.Signature); isSig {
+				if f, mc := fa.resolveFunc(a, 0); f != nil {
+					k := fmt.Sprintf("%p/%p", f, mc)
+					if e.fnArgs == nil {
+						e.fnArgs = map[string]fnArg{}
+					}
+					e.fnArgs[k] = fnArg{fn: f, mc: mc}
+					ps = append(ps, fmt.Sprintf("%d=@%s", i, k))
+				}
+			}
+			// a token channel handed over (the receiver of a method of a named channel type)
+			if isTokenChanType(t.fn.Params[i].Type()) {
+				if k := fa.chanKey(a); k != "" {
+					ps = append(ps, fmt.Sprintf("%d=@%s", i, k))
+				}
+			}
+			// a sync primitive handed over by address
+			if pt, ok := t.fn.Params[i].Type().(*types.Pointer); ok {
+				if n := an.NamedOf(pt.Elem()); n != nil && n.Obj().Pkg() != nil && n.Obj().Pkg().Path() == "sync" {
+					if tt, ff, _, ok := fa.syncField(a); ok {
+						ps = append(ps, fmt.Sprintf("%d=@%s.%s", i, tt, ff))
+					}
 				}
 			}
 		}
@@ -1066,9 +1210,17 @@ func (fa *funcAn) spawn(st lstate, g *ssa.Go) lstate {
 	if fn == nil || !e.inScope(fn) {
 		return st
 	}
+	// the goroutine's parameters: sync primitives handed over by address keep their identity
+	params := ""
+	if g.Call.StaticCallee() == fn && len(g.Call.Args) == len(fn.Params) {
+		params = fa.calleeCtx(st, g, target{fn: fn, args: g.Call.Args}).params
+	}
 	var transfer uint64
 	for _, sub := range an.WithAnon(fn) {
 		helper := &funcAn{e: e, fn: sub}
+		if sub == fn {
+			helper.ctx.params = params
+		}
 		an.Calls(sub, func(c ssa.CallInstruction) {
 			if op, cl, _, ok := helper.syncOp(c); ok && op == "done" && st.held&(1<<uint(cl)) != 0 {
 				transfer |= 1 << uint(cl)
@@ -1077,11 +1229,15 @@ func (fa *funcAn) spawn(st lstate, g *ssa.Go) lstate {
 	}
 	st.held &^= transfer
 	fam := fa.ctx.fam
-	e.spawnRoot(fn, fam, transfer, "go")
+	e.spawnRootP(fn, fam, transfer, "go", params)
 	return st
 }
 
 func (e *Engine) spawnRoot(fn *ssa.Function, fam int, held uint64, kind string) {
+	e.spawnRootP(fn, fam, held, kind, "")
+}
+
+func (e *Engine) spawnRootP(fn *ssa.Function, fam int, held uint64, kind string, params string) {
 	if f := e.R.FamilyOfFunc(fn); f != nil {
 		fam = e.famIndex(f)
 	}
@@ -1095,7 +1251,7 @@ func (e *Engine) spawnRoot(fn *ssa.Function, fam int, held uint64, kind string) 
 			return
 		}
 	}
-	e.runRoot(RootSpec{Fn: fn, Fam: fam, Held: held, Name: name})
+	e.runRoot(RootSpec{Fn: fn, Fam: fam, Held: held, Name: name, Params: params})
 }
 
 var _ = core.FuncPkgPath
